@@ -1190,3 +1190,98 @@ def _replay_coarsen_aggregate(inputs, ghost=None):
     shutil.rmtree(d, ignore_errors=True)
     out.update(raised=None, violations=viol[:3], violates_contract=bool(viol))
     return out
+
+
+# ---------------------------------------------------------------- api.annotate (C14, C12)
+def _replay_annotate(inputs, ghost=None):
+    """real pandas frames from the counter-model (pixel columns, pixel index, bin columns, first label), then - because a
+    model's arrays are often degenerate - the adapter's own small family for the same configuration (column set, replace,
+    whole table / contiguous part): unsorted pixels fewer than bins, duplicates, empty, first > 0.  Judged against the
+    property itself: every pixel gets the columns of its own two bins, pixel order / index / other columns kept."""
+    import itertools
+    import numpy as np
+    import pandas as pd
+    import cooler
+    g = {k: conv(v) for k, v in (ghost or {}).items()}
+    replace = bool(conv(inputs.get("replace"))) if inputs.get("replace") is not None else False
+    pcols = [c for c in str(g.get("pcols_csv") or "bin1_id,bin2_id,count").split(",") if c]
+    whole = bool(g.get("whole", True)) or bool(g.get("selector"))
+    BIN = ["chrom", "start", "end", "weight"]
+    cases = []
+
+    def arr(x):
+        return list(x) if x is not None else None
+    try:
+        nb, npx = int(g.get("nb")), int(g.get("npx"))
+        first = 0 if whole else int(g.get("first"))
+        if 0 < nb <= 40 and 0 <= npx <= 40 and first >= 0:
+            bins = {c: (arr(g.get("bins." + c)) or [])[:nb] for c in BIN}
+            pix = {c: (arr(g.get("pixels." + c)) or [])[:npx] for c in pcols}
+            pidx = (arr(g.get("pixels.index")) or [])[:npx]
+            ok = all(len(a) == nb for a in bins.values()) and all(len(a) == npx for a in pix.values()) and len(pidx) == npx
+            ok = ok and all(first <= int(x) < first + nb for c in ("bin1_id", "bin2_id") if c in pix for x in pix[c])
+            if ok:
+                cases.append(("counter-model", first, bins, pix, pidx))
+    except Exception:
+        pass
+    rng = np.random.RandomState(7)
+    for nb, first in ((6, 0), (7, 3)):
+        if whole and first:
+            continue
+        bins = {"chrom": [k // 3 for k in range(nb)], "start": [10 * k for k in range(nb)], "end": [10 * k + 10 for k in range(nb)],
+                "weight": [100 + k for k in range(nb)]}
+        for ids in ([], [first + nb - 1, first], [first + 2, first + 4, first + 1], [first + 3] * 2 + [first + 1],
+                    list(range(first, first + nb)) * 2, [first + 1, first + 1, first + 5, first + 2]):
+            n = len(ids)
+            pix = {}
+            for c in pcols:
+                if c == "bin1_id":
+                    pix[c] = list(ids)
+                elif c == "bin2_id":
+                    pix[c] = list(reversed(ids)) if n % 2 else [ids[(k + 1) % n] for k in range(n)] if n else []
+                else:
+                    pix[c] = [int(x) for x in rng.randint(1, 50, n)]
+            cases.append((f"family nb={nb} first={first} ids={ids}", first, bins, pix, [1000 + 3 * k for k in range(n)]))
+    viol, tried = [], 0
+    for label, first, bins, pix, pidx in cases:
+        tried += 1
+        nb = len(bins["start"])
+        bdf = pd.DataFrame({c: np.asarray(bins[c], dtype=np.int64) for c in BIN}, index=pd.RangeIndex(first, first + nb))
+        pdf = pd.DataFrame({c: np.asarray(pix[c], dtype=np.int64) for c in pcols}, index=pd.Index(np.asarray(pidx, dtype=np.int64)))
+        barg = bdf.copy()
+        if g.get("selector"):
+            from cooler.core import RangeSelector1D
+            barg = RangeSelector1D(None, (lambda fields, lo, hi, bdf=bdf: bdf.iloc[lo:hi]), None, len(bdf))
+        try:
+            out = cooler.annotate(pdf.copy(), barg, replace=replace)
+        except Exception as e:
+            viol.append(f"[{label}] annotate raised {type(e).__name__}: {e}")
+            continue
+        want_cols = []
+        for idc, suf in (("bin1_id", "1"), ("bin2_id", "2")):
+            if idc in pcols:
+                want_cols += [c + suf for c in BIN]
+        kept = [c for c in pcols if not (replace and c in ("bin1_id", "bin2_id"))]
+        if list(out.columns) != want_cols + kept:
+            viol.append(f"[{label}] columns {list(out.columns)}, expected {want_cols + kept}")
+            continue
+        if len(out) != len(pdf) or list(out.index) != list(pdf.index):
+            viol.append(f"[{label}] index/length changed: {list(out.index)[:6]} vs {list(pdf.index)[:6]}")
+            continue
+        for idc, suf in (("bin1_id", "1"), ("bin2_id", "2")):
+            if idc not in pcols:
+                continue
+            for c in BIN:
+                exp = [bins[c][int(i) - first] for i in pix[idc]]
+                got = [int(x) for x in out[c + suf].to_numpy()]
+                if got != [int(x) for x in exp]:
+                    viol.append(f"[{label}] column {c + suf} = {got[:6]}, bins of the pixels have {exp[:6]} (pixels {idc} = {pix[idc][:6]})")
+                    break
+        for c in kept:
+            if [int(x) for x in out[c].to_numpy()] != [int(x) for x in pix[c]]:
+                viol.append(f"[{label}] pixel column {c} changed")
+    return {"inputs_used": {"replace": replace, "pixel_columns": pcols, "whole_table": whole, "cases_tried": tried},
+            "returned": None, "violations": viol[:6], "violates_contract": bool(viol)}
+
+
+CUSTOM["cooler.api:annotate"] = _replay_annotate
